@@ -1,5 +1,6 @@
 import Mixin.Model.PeerMsg
 import Mixin.Proofs.PeerMsg
+import Mixin.Facts.ExpectedC08
 /-!
 # C08 — peer message parsing is total and faithful
 
@@ -341,5 +342,247 @@ theorem build_parse_full_challenge (O : Oracle) (v : UInt8) (snap cm ch : Bytes)
   simp only [ea, eb, ec, copyN_exact hcm, hk1, slice_prefix _ hch, copyN_exact hch, hk2, sliceFrom_zero, h3, hch,
     Nat.sub_self]
   simp
+
+
+def WellFormedPoint (p : SyncPoint) : Prop := p.nodeId.length = 32 ∧ p.hash.length = 32 ∧ p.number < 2 ^ 64
+
+theorem build_parse_graph (O : Oracle) (v : UInt8) (sig : Bytes) (points : List SyncPoint)
+    (hsig : sig.length = 64) (hn : points.length ≤ 65535) (hp : ∀ p ∈ points, WellFormedPoint p) :
+    ∃ b d, buildGraph sig points = some b ∧ marshalSyncPoints points = some d ∧
+      parse O v b = .ok { type := tGraph, version := v, graph := points, signature := some sig, unsigned := d } := by
+  have hm : marshalSyncPoints points =
+      some (minimumHeader ++ (beBytes 2 points.length ++ (points.map encodePoint).flatten)) := by
+    unfold marshalSyncPoints maximumEncodingInt
+    rw [if_neg (by omega)]
+  refine ⟨tGraph :: (sig ++ (minimumHeader ++ (beBytes 2 points.length ++ (points.map encodePoint).flatten))), _,
+    by simp [buildGraph, hm], hm, ?_⟩
+  unfold parse
+  simp only [dispatch_graph]
+  unfold parseGraph
+  have hb : (beBytes 2 points.length).length = 2 := length_beBytes _ _
+  have hv : beNat (beBytes 2 points.length) = points.length := by
+    rw [beNat_beBytes]; exact Nat.mod_eq_of_lt (by simp; omega)
+  have hh : minimumHeader.length = 4 := rfl
+  have hlen : ¬ (tGraph :: (sig ++ (minimumHeader ++ (beBytes 2 points.length ++ (points.map encodePoint).flatten)))).length < 71 := by
+    simp [hb, hh]; omega
+  rw [if_neg hlen]
+  simp (disch := omega) only [sliceFrom_cons, sliceFrom_zero, sliceFrom_append, hsig, Nat.sub_self, Nat.reduceSub]
+  have hu : unmarshalSyncPoints (minimumHeader ++ (beBytes 2 points.length ++ (points.map encodePoint).flatten)) = .ok points := by
+    unfold unmarshalSyncPoints
+    have hl4 : ¬ (minimumHeader ++ (beBytes 2 points.length ++ (points.map encodePoint).flatten)).length < 4 := by
+      simp [hh]
+    rw [if_neg hl4, slice_prefix _ hh]
+    simp only [ne_eq, not_true_eq_false, if_false]
+    rw [sliceFrom_append _ (by omega), hh, Nat.sub_self, sliceFrom_zero]
+    simp only [readN_append _ hb, hv]
+    have hc : ¬ points.length > maximumEncodingInt := by unfold maximumEncodingInt; omega
+    rw [if_neg hc]
+    have := readPoints_flatten points [] hp
+    rw [List.append_nil] at this
+    rw [this]
+  rw [hu]
+  simp [copyN_append _ hsig]
+
+theorem build_parse_pre_commitments (O : Oracle) (v : UInt8) (sig : Bytes) (keys : List Bytes)
+    (hsig : sig.length = 64) (h1 : 1 ≤ keys.length) (hn : keys.length ≤ 1024)
+    (h32 : ∀ k ∈ keys, k.length = 32) (hk : ∀ k ∈ keys, O.checkKey k = true) :
+    ∃ b, buildCommitments sig keys = some b ∧
+      parse O v b = .ok { type := tPreCommitments, version := v, commitments := keys, signature := some sig,
+                          unsigned := beBytes 2 keys.length ++ keys.flatten } := by
+  refine ⟨tPreCommitments :: (sig ++ (beBytes 2 keys.length ++ keys.flatten)), ?_, ?_⟩
+  · unfold buildCommitments; rw [if_neg (by omega)]
+  unfold parse
+  simp only [dispatch_pre]
+  unfold parsePreCommitments
+  have hf := flatten_length32 keys h32
+  have hb : (beBytes 2 keys.length).length = 2 := length_beBytes _ _
+  have hv : beNat (beBytes 2 keys.length) = keys.length := by
+    rw [beNat_beBytes]; exact Nat.mod_eq_of_lt (by simp; omega)
+  have hlen : ¬ (tPreCommitments :: (sig ++ (beBytes 2 keys.length ++ keys.flatten))).length < 80 := by
+    simp [hb, hf]; omega
+  rw [if_neg hlen]
+  simp (disch := omega) only [sliceFrom_cons, sliceFrom_zero, sliceFrom_append, slice_cons, slice_append, slice_prefix,
+    hsig, hb, Nat.sub_self, Nat.reduceSub, hv]
+  rw [if_neg (by omega), if_neg (by rw [hf]; simp)]
+  have hd : ∀ j, sliceFrom (tPreCommitments :: (sig ++ (beBytes 2 keys.length ++ keys.flatten))) (67 + j)
+      = sliceFrom (([] ++ keys).flatten) j := by
+    intro j
+    have e : 67 + j = (66 + j) + 1 := by omega
+    rw [e, sliceFrom_cons, sliceFrom_append _ (by omega), sliceFrom_append _ (by omega), hsig, hb]
+    have e2 : 66 + j - 64 - 2 = j := by omega
+    rw [e2]; simp
+  have := preCommitLoop_flatten O _ keys [] hd (by simpa using h32) hk (by simpa using hn)
+  simp only [List.length_nil] at this
+  rw [this]
+  simp [copyN_exact hsig]
+
+/-- The builder accepts an empty list, the parser does not: a 67-byte pre-commitments message is
+    below the parser's 80-byte minimum.  The node never sends one (`cosiPrepareRandomsAndSendCommitments`
+    always sends 512 commitments), so this is a documented quirk and not a finding. -/
+theorem build_parse_pre_commitments_empty_rejected (O : Oracle) (v : UInt8) (sig : Bytes) (hsig : sig.length = 64) :
+    ∃ b, buildCommitments sig [] = some b ∧ parse O v b = .reject := by
+  refine ⟨tPreCommitments :: (sig ++ (beBytes 2 0 ++ [])), by simp [buildCommitments], ?_⟩
+  unfold parse
+  simp only [dispatch_pre]
+  unfold parsePreCommitments
+  have hb : (beBytes 2 0).length = 2 := length_beBytes _ _
+  rw [if_pos (by simp [hsig, hb])]
+
+/-! ## type and version are those of the input -/
+
+theorem dispatch_type (O : Oracle) (msg m : Msg) (t : UInt8) (data : Bytes) (h : dispatch O msg t data = .ok m) :
+    m.type = msg.type ∧ m.version = msg.version := by
+  unfold dispatch at h
+  by_cases h0 : t = tPreCommitments
+  · rw [if_pos h0] at h; exact parsePreCommitments_type (O := O) h
+  rw [if_neg h0] at h
+  by_cases h1 : t = tGraph
+  · rw [if_pos h1] at h; exact parseGraph_type (O := O) h
+  rw [if_neg h1] at h
+  by_cases h2 : t = tPing
+  · rw [if_pos h2] at h; exact parsePing_type (O := O) h
+  rw [if_neg h2] at h
+  by_cases h3 : t = tAuthentication
+  · rw [if_pos h3] at h; exact parseAuthentication_type (O := O) h
+  rw [if_neg h3] at h
+  by_cases h4 : t = tSnapshotConfirm
+  · rw [if_pos h4] at h; exact parseSnapshotConfirm_type (O := O) h
+  rw [if_neg h4] at h
+  by_cases h5 : t = tTransaction
+  · rw [if_pos h5] at h; exact parseTransaction_type (O := O) h
+  rw [if_neg h5] at h
+  by_cases h6 : t = tTransactionBundle ∨ t = tFinalizedTransactionBundle
+  · rw [if_pos h6] at h; exact parseBundle_type (O := O) h
+  rw [if_neg h6] at h
+  by_cases h7 : t = tTransactionRequest
+  · rw [if_pos h7] at h; exact parseTransactionRequest_type (O := O) h
+  rw [if_neg h7] at h
+  by_cases h8 : t = tAnnouncement
+  · rw [if_pos h8] at h; exact parseAnnouncement_type (O := O) h
+  rw [if_neg h8] at h
+  by_cases h9 : t = tCommitment
+  · rw [if_pos h9] at h; exact parseCommitment_type (O := O) h
+  rw [if_neg h9] at h
+  by_cases h10 : t = tFullChallenge
+  · rw [if_pos h10] at h; exact parseFullChallenge_type (O := O) h
+  rw [if_neg h10] at h
+  by_cases h11 : t = tTransactionChallenge
+  · rw [if_pos h11] at h; exact parseTransactionChallenge_type (O := O) h
+  rw [if_neg h11] at h
+  by_cases h12 : t = tResponse
+  · rw [if_pos h12] at h; exact parseResponse_type (O := O) h
+  rw [if_neg h12] at h
+  by_cases h13 : t = tFinalization
+  · rw [if_pos h13] at h; exact parseFinalization_type (O := O) h
+  rw [if_neg h13] at h
+  by_cases h14 : t = tRelay
+  · rw [if_pos h14] at h; exact parseRelay_type (O := O) h
+  rw [if_neg h14] at h
+  by_cases h15 : t = tConsumers
+  · rw [if_pos h15] at h; exact parseConsumers_type (O := O) h
+  rw [if_neg h15] at h
+  simp at h; subst h; simp
+
+theorem parse_type (O : Oracle) (v t : UInt8) (rest : Bytes) (m : Msg) (h : parse O v (t :: rest) = .ok m) :
+    m.type = t ∧ m.version = v := by
+  unfold parse at h
+  exact dispatch_type O _ m t _ h
+
+/-! ## points that must be valid curve points are checked at parse time -/
+
+theorem points_checked_announcement (O : Oracle) (v : UInt8) (rest : Bytes) (m : Msg)
+    (h : parse O v (tAnnouncement :: rest) = .ok m) : O.checkKey m.commitment = true := by
+  unfold parse at h
+  simp only [dispatch_ann] at h
+  exact parseAnnouncement_ok h
+
+theorem points_checked_commitment (O : Oracle) (v : UInt8) (rest : Bytes) (m : Msg)
+    (h : parse O v (tCommitment :: rest) = .ok m) : O.checkKey m.commitment = true := by
+  unfold parse at h
+  simp only [dispatch_commitment] at h
+  exact parseCommitment_ok h
+
+theorem points_checked_full_challenge (O : Oracle) (v : UInt8) (rest : Bytes) (m : Msg)
+    (h : parse O v (tFullChallenge :: rest) = .ok m) :
+    O.checkKey m.commitment = true ∧ O.checkKey m.challenge = true := by
+  unfold parse at h
+  simp only [dispatch_full] at h
+  exact parseFullChallenge_ok h
+
+theorem points_checked_pre_commitments (O : Oracle) (v : UInt8) (rest : Bytes) (m : Msg)
+    (h : parse O v (tPreCommitments :: rest) = .ok m) : ∀ k ∈ m.commitments, O.checkKey k = true := by
+  unfold parse at h
+  simp only [dispatch_pre] at h
+  exact parsePreCommitments_ok h
+
+/-- all of the above keyed by the type of the *parsed* message -/
+theorem points_checked (O : Oracle) (v : UInt8) (b : Bytes) (m : Msg) (h : parse O v b = .ok m) :
+    (m.type = tAnnouncement ∨ m.type = tCommitment → O.checkKey m.commitment = true) ∧
+    (m.type = tFullChallenge → O.checkKey m.commitment = true ∧ O.checkKey m.challenge = true) ∧
+    (m.type = tPreCommitments → ∀ k ∈ m.commitments, O.checkKey k = true) := by
+  cases b with
+  | nil => simp [parse] at h
+  | cons t rest =>
+    have ht := (parse_type O v t rest m h).1
+    refine ⟨?_, ?_, ?_⟩
+    · intro hm
+      rcases hm with hm | hm
+      · rw [ht] at hm; subst hm; exact points_checked_announcement O v rest m h
+      · rw [ht] at hm; subst hm; exact points_checked_commitment O v rest m h
+    · intro hm; rw [ht] at hm; subst hm; exact points_checked_full_challenge O v rest m h
+    · intro hm; rw [ht] at hm; subst hm; exact points_checked_pre_commitments O v rest m h
+
+/-- a commitment point that fails `CheckKey` makes the announcement an error, whatever follows -/
+theorem announcement_invalid_point_rejected (O : Oracle) (v : UInt8) (sig R snap : Bytes)
+    (hsig : sig.length = 64) (hR : R.length = 32) (hk : O.checkKey R = false) :
+    parse O v (buildAnnouncement sig R snap) = .reject := by
+  cases hp : parse O v (buildAnnouncement sig R snap) with
+  | reject => rfl
+  | panic => exact absurd hp (parse_total O v _)
+  | ok m =>
+    exfalso
+    have hc := points_checked_announcement O v _ m hp
+    unfold buildAnnouncement parse at hp
+    simp only [dispatch_ann] at hp
+    unfold parseAnnouncement at hp
+    have h1 : sig.length ≤ 64 := by omega
+    simp (disch := omega) only [sliceFrom_cons, sliceFrom_zero, sliceFrom_append, slice_cons, slice_prefix, hsig, hR,
+      Nat.sub_self, copyN_append, hk] at hp
+    split at hp <;> simp at hp
+
+
+/-! ## totality for everything the transport can deliver, and non-vacuity -/
+
+/-- the statement in the form the transport gives it: any message of at most
+    `TransportMessageMaxSize` bytes (in fact any byte string at all) -/
+theorem parse_total_transport (O : Oracle) (v : UInt8) (b : Bytes)
+    (_ : b.length ≤ Mixin.Facts.Gen.p2p_TransportMessageMaxSize) : parse O v b ≠ .panic :=
+  parse_total O v b
+
+def oracleAll : Oracle := { checkKey := fun _ => true, tx := fun _ => true, snap := fun _ => some ⟨[1], some (zeros 64, 1)⟩ }
+def oracleNone : Oracle := { checkKey := fun _ => false, tx := fun _ => false, snap := fun _ => none }
+
+-- the hypotheses of the round-trip theorems are satisfiable, and the model accepts real shapes
+example : parse oracleAll 2 (buildSnapshotConfirm (zeros 32)) =
+    .ok { type := tSnapshotConfirm, version := 2, snapshotHash := zeros 32 } :=
+  build_parse_confirm oracleAll 2 (zeros 32) (by decide)
+example : parse oracleAll 2 (buildAnnouncement (zeros 64) (zeros 32) (zeros 4)) =
+    .ok { type := tAnnouncement, version := 2, commitment := zeros 32, snapshot := some ⟨[1], some (zeros 64, 1)⟩,
+          signature := some (zeros 64) } :=
+  build_parse_announcement oracleAll 2 _ _ _ _ (by decide) (by decide) rfl rfl (by decide)
+example : parse oracleNone 2 (buildAnnouncement (zeros 64) (zeros 32) (zeros 4)) = .reject :=
+  announcement_invalid_point_rejected oracleNone 2 _ _ _ (by decide) (by decide) rfl
+example : ∃ b, buildCommitments (zeros 64) [zeros 32, zeros 32] = some b ∧
+    parse oracleAll 7 b =
+      .ok { type := tPreCommitments, version := 7, commitments := [zeros 32, zeros 32],
+            signature := some (zeros 64), unsigned := beBytes 2 2 ++ [zeros 32, zeros 32].flatten } :=
+  build_parse_pre_commitments oracleAll 7 _ _ (by decide) (by decide) (by decide) (by decide) (by intros; rfl)
+example : ∃ b, buildTransactions [[1, 2, 3], []] tTransactionBundle = some b ∧
+    parse oracleAll 2 b = .ok { type := tTransactionBundle, version := 2, transactions := [[1, 2, 3], []] } :=
+  build_parse_bundle oracleAll 2 _ _ (Or.inl rfl) (by decide) (by intros; rfl) (by decide)
+example : parse oracleAll 2 [] = .reject := rfl
+example : parse oracleAll 2 [1] = .ok { type := 1, version := 2 } := by decide
+example : parse oracleAll 2 [1, 0] = .reject := by decide
+example : parse oracleAll 9 [77, 1, 2] = .ok { type := 77, version := 9 } := by decide
 
 end Mixin.C08
